@@ -112,6 +112,10 @@ func (t *Timer) Scheduled() bool {
 }
 
 func (t *Timer) Cancel() error {
+	if t.state == stateClosed {
+		// Nothing to cancel, and a closed timer must stay closed.
+		return nil
+	}
 	err := t.it.Unset()
 	if err == nil {
 		t.cancelled = true
